@@ -210,8 +210,28 @@ if $t not in $map:
                 "renumbers-through-the-numbered-mapping", where,
                 f"tags are rewritten through {sorted(used)} but numbered in {e['$map']}")
         g = find(fd, f"{comm}.gather($tags, root=$$r)")
-        c.check(len(g) == 1 and has(fd, f"{g[0]['$tags']} = tuple([$$a for $$b in $$c] + $$d)")
-                or (len(g) == 1 and has(fd, f"{g[0]['$tags']} = tuple($$a)")), "R09-TAGS",
+        def ordered_seq(e):
+            """a tuple/list display, a list comprehension, tuple(..)/list(..) of one, or
+            a + of such: an ordered sequence (never a set)"""
+            if isinstance(e, (ast.Tuple, ast.List)):
+                return all(ordered_seq(x.value) if isinstance(x, ast.Starred) else True
+                           for x in e.elts)
+            if isinstance(e, ast.ListComp):
+                return True
+            if isinstance(e, ast.BinOp) and isinstance(e.op, ast.Add):
+                return ordered_seq(e.left) and ordered_seq(e.right)
+            if isinstance(e, ast.Call) and isinstance(e.func, ast.Name) \
+                    and e.func.id in ("tuple", "list") and len(e.args) == 1:
+                return ordered_seq(e.args[0]) or isinstance(e.args[0], ast.GeneratorExp)
+            if isinstance(e, ast.Name):
+                asg = [a.value for a in ast.walk(fd) if isinstance(a, (ast.Assign, ast.AnnAssign))
+                       and a.value is not None and any(
+                           isinstance(t, ast.Name) and t.id == e.id for t in (
+                               a.targets if isinstance(a, ast.Assign) else [a.target]))]
+                return bool(asg) and all(ordered_seq(v) for v in asg)
+            return False
+        c.check(len(g) == 1 and ordered_seq(ast.Name(id=g[0]["$tags"], ctx=ast.Load())),
+                "R09-TAGS",
                 "distributed.tags.number_distributed_tags", "gathers-ordered-local-tags", where,
                 "the local tags gathered on the root are not an ordered tuple/list")
         c.check(has(fd, f"{comm}.bcast(({e['$map']}, {e['$next']}), root=$$r)")
